@@ -4,10 +4,15 @@
 MC   : Generate.tla -- walker / dispatcher / semaphore-bounded workers (HandleEvent in its real steps) / post-generation
        handler / main, the channel protocol with its closing order, two runs composed. All schedules for every tree
        of the protocol universe (<= MaxFiles files), every flag combination (keep-orphaned, lazy, include-version),
-       W in {1,2,3}; the skip-rule universe (every directory path of depth <= 2 over {d, vendor, node_modules, .x, _x});
-       TLC's deadlock check is ON. Negative configs that TLC must reject: UpsertHash without the mutex (NoDataRace),
-       errs closed before the workers finish (NoPanic), main not reading errs (Deadlock), underscore directories
-       not skipped (NothingElseTouched).
+       W in {1,2,3}; the skip-rule universe (every directory path of depth <= 2 over {d, vendor, node_modules, .x, _x},
+       plus the near misses of the rule -- multivendor, old_node_modules, vendored, node_modules2, Vendor, x.y, x_, a_b,
+       which must be walked -- at depth 1, below a plain and below a skipped parent, above a plain child, and skipped
+       names below a near-miss parent; the rule is modelled on the spelling of the names exactly as
+       internal/skipdir.ShouldSkip is coded); TLC's deadlock check is ON. Negative configs that TLC must reject:
+       UpsertHash without the mutex (NoDataRace), errs closed before the workers finish (NoPanic), main not reading
+       errs (Deadlock), underscore / dot directories not skipped (NothingElseTouched), vendor / node_modules compared
+       with HasSuffix / HasPrefix / case-insensitively, dot / underscore looked for anywhere in the name
+       (SiblingEqualsSoloGeneration).
 GEN  : one record per terminated behaviour (tree, flags, predicted tree + exit status after run 1 and run 2) is
        materialised in a scratch directory; the real generatecmd.Run is executed in-process from a -race build with
        W in {1, 2, 8}, twice; the whole tree (presence, bytes, modification time of untouched files) and the error
@@ -16,6 +21,7 @@ VAL  : with the verif hook of cmd/templ/generatecmd present, the worker/write/er
        validated by TLC against spec/TraceGenerate.tla, and the schedule is perturbed at the hook points.
        Without the hook the check says so and works from public observation only.
 """
+import concurrent.futures as cf
 import json, os, re, sys
 sys.path.insert(0, os.path.join(os.path.dirname(os.path.abspath(__file__)), "..", "lib"))
 import vlib
@@ -39,44 +45,60 @@ def main():
     if not hooks and os.environ.get("VERIF_REQUIRE_HOOKS") == "1":
         raise vlib.InfraError("hook symbol generatecmd.VerifHook is missing in %s (apply hooks/C15-generatecmd-events.diff)" % vlib.REPO)
 
-    # --- MC --------------------------------------------------------------------------------------
+    # --- MC + emission: all TLC runs concurrently, the harness is built meanwhile ----------------------
     mcs = [("TreesProto", 2, "{1, 2, 3}", "TRUE"), ("TreesFocus", 4, "{1, 2, 3}", "TRUE")]
     if thorough:
         mcs = [("TreesProto", 3, "{1, 2, 3}", "TRUE"), ("TreesFocus", 4, "{1, 2, 3}", "TRUE"), ("TreesFour", 4, "{1, 2, 3}", "FALSE")]
-    for trees, maxfiles, ws, two in mcs:
-        mc = vlib.tlc("MCGenerate", "mc.cfg", files={"mc.cfg": cfg_text("Generate_mc.cfg", Trees=trees, MaxFiles=maxfiles, Ws=ws, TwoRuns=two)},
-                      workers=12, timeout=2400, xmx="10g")
-        if not mc.ok:
-            raise vlib.InfraError("Generate model violates %s (%s): spec inconsistent" % (mc.violated, trees))
-        vlib.log("MC %s done" % trees)
-        ck.add_tlc(mc, "Generate_mc %s MaxFiles=%d W=%s two_runs=%s" % (trees, maxfiles, ws, two))
-    sk = vlib.tlc("MCGenerate", "Generate_skip.cfg", workers=8, timeout=1200, xmx="8g")
-    if not sk.ok:
-        raise vlib.InfraError("Generate model violates %s on the skip universe" % sk.violated)
-    ck.add_tlc(sk, "Generate_skip (31 directory paths, each alone)")
-    for name, expect in (("Generate_neg_mutex.cfg", "NoDataRace"), ("Generate_neg_errs.cfg", "NoPanic"),
-                         ("Generate_neg_main.cfg", "Deadlock"), ("Generate_neg_skip.cfg", "NothingElseTouched")):
-        neg = vlib.tlc("MCGenerate", name, workers=1, timeout=600)
-        if neg.violated != expect:
-            raise vlib.InfraError("negative config %s: expected %s, TLC reported %s" % (name, expect, neg.violated))
-    vlib.log("skip + negative configs done")
-    ck.set("negative_configs_rejected", 4)
-    ck.set("deadlock_check", True)
-
-    # --- GEN: emission ---------------------------------------------------------------------------
+    negs = [("mutex", "Generate_neg_mutex.cfg", {}, "NoDataRace"), ("errs", "Generate_neg_errs.cfg", {}, "NoPanic"),
+            ("main", "Generate_neg_main.cfg", {}, "Deadlock")]
+    for rule, expect in (("nounderscore", "NothingElseTouched"), ("nodot", "NothingElseTouched"),
+                         ("suffix", "SiblingEqualsSoloGeneration"), ("prefix", "SiblingEqualsSoloGeneration"),
+                         ("foldcase", "SiblingEqualsSoloGeneration"), ("contains", "SiblingEqualsSoloGeneration")):
+        negs.append(("skip-" + rule, "Generate_neg_skip.cfg", {"SkipRule": '"%s"' % rule}, expect))
     gen_files = 3 if thorough else 2
-    gen = vlib.tlc("MCGenerate", "gen.cfg", files={"gen.cfg": cfg_text("Generate_gen.cfg", MaxFiles=gen_files)}, workers=1, timeout=2400, xmx="8g")
+    tags = ("verif", "c15hook") if hooks else ("verif",)
+    with cf.ThreadPoolExecutor(max_workers=16) as ex:
+        fbuild = ex.submit(vlib.go_build, "./c15", "c15", tags=tags, race=True)
+        fmc = [ex.submit(vlib.tlc, "MCGenerate", "mc.cfg", files={"mc.cfg": cfg_text("Generate_mc.cfg", Trees=trees, MaxFiles=maxfiles, Ws=ws, TwoRuns=two)},
+                         workers=12 if thorough else 6, timeout=2400, xmx="10g") for trees, maxfiles, ws, two in mcs]
+        fsk = ex.submit(vlib.tlc, "MCGenerate", "Generate_skip.cfg", workers=8 if thorough else 4, timeout=1200, xmx="8g")
+        fneg = [ex.submit(vlib.tlc, "MCGenerate", "n.cfg", files={"n.cfg": cfg_text(name, **repl)}, workers=1, timeout=600)
+                for _, name, repl, _ in negs]
+        fgen = ex.submit(vlib.tlc, "MCGenerate", "gen.cfg", files={"gen.cfg": cfg_text("Generate_gen.cfg", MaxFiles=gen_files)},
+                         workers=4, timeout=2400, xmx="8g")       # emission order is irrelevant: the cases are sorted below
+        for (trees, maxfiles, ws, two), f in zip(mcs, fmc):
+            mc = f.result()
+            if not mc.ok:
+                raise vlib.InfraError("Generate model violates %s (%s): spec inconsistent" % (mc.violated, trees))
+            vlib.log("MC %s done" % trees)
+            ck.add_tlc(mc, "Generate_mc %s MaxFiles=%d W=%s two_runs=%s" % (trees, maxfiles, ws, two))
+        sk = fsk.result()
+        if not sk.ok:
+            raise vlib.InfraError("Generate model violates %s on the skip universe" % sk.violated)
+        ck.add_tlc(sk, "Generate_skip (31 basic + 36 near-miss directory paths, each alone)")
+        for (nm, name, repl, expect), f in zip(negs, fneg):
+            neg = f.result()
+            if neg.violated != expect:
+                raise vlib.InfraError("negative config %s (%s): expected %s, TLC reported %s" % (name, nm, expect, neg.violated))
+        vlib.log("skip + negative configs done")
+        ck.set("negative_configs_rejected", [n[0] for n in negs])
+        ck.set("deadlock_check", True)
+
+        # --- GEN: emission -----------------------------------------------------------------------
+        gen = fgen.result()
+        binp = fbuild.result()
     if not gen.ok:
         raise vlib.InfraError("emission run failed: %s" % gen.violated)
     cases = gen.tagged("CASE")
-    ck.add_tlc(gen, "Generate_gen (TreesProto<=%d + skip universe + focus trees, W=1)" % gen_files)
+    ck.add_tlc(gen, "Generate_gen (TreesProto<=%d + skip universe incl. near misses + forests + focus trees, W=1)" % gen_files)
     seen, uniq = set(), []
     for c in cases:
         k = json.dumps([c["files"], c["flags"]], sort_keys=True)
         if k in seen:
             raise vlib.InfraError("two different terminal states for one configuration: the model is not deterministic: %s" % k)
         seen.add(k)
-        uniq.append(c)
+        uniq.append((k, c))
+    uniq = [c for _, c in sorted(uniq, key=lambda x: x[0])]
     vlib.log("emitted %d cases" % len(uniq))
     if len(uniq) < 200:
         raise vlib.InfraError("only %d cases emitted" % len(uniq))
@@ -85,8 +107,6 @@ def main():
     vlib.write_ndjson(cpath, uniq)
 
     # --- GEN/VAL: the real generatecmd.Run -----------------------------------------------------------
-    tags = ("verif", "c15hook") if hooks else ("verif",)
-    binp = vlib.go_build("./c15", "c15", tags=tags, race=True)
     work = os.path.join(sc, "c15work")
     os.makedirs(work)
     tpath = os.path.join(sc, "trace.ndjson")
@@ -166,7 +186,13 @@ def main():
         ck.notes.append("degraded: verif hook missing, VAL and perturbation skipped")
         ck.set("traces_validated_against_impl", 0)
     ck.set("evaluations", s["runs"] * 2)
-    ck.set("bounds", {"mc": [list(m) for m in mcs], "gen_max_files": gen_files, "dir_paths": 31})
+    ck.set("bounds", {"mc": [list(m) for m in mcs], "gen_max_files": gen_files, "dir_paths": 31 + 36,
+                      "near_miss_dir_names": ["multivendor", "old_node_modules", "vendored", "node_modules2", "Vendor", "x.y", "x_", "a_b"]})
+    near = sum(1 for c in uniq if any(d in ("multivendor", "old_node_modules", "vendored", "node_modules2", "Vendor", "x.y", "x_", "a_b")
+                                      for f in c["files"] for d in f["dir"]))
+    if near < 36 * 8:
+        raise vlib.InfraError("only %d emitted cases contain a near-miss directory name" % near)
+    ck.set("cases_with_near_miss_directory_names", near)
     ck.set("rule", "every terminated behaviour of Generate.tla for the emission universe (one per tree x flags), each executed with W in {1,2,8} (8 at a time, race detector) and, with the hook, %d recorded+perturbed repetitions with W in {2,8}; every run twice" % reps)
     ck.assume("-lazy trusts modification times: a newer _templ.go is left alone even if its content differs (modelled as specified by the flag)")
     ck.assume("the root directory itself has a plain name (ShouldSkip is applied to the root's absolute path as well)")
